@@ -218,9 +218,9 @@ def lookup_table_rule(ctx, an, prog, rule, enum_path, from_path, catch):
         return 0
     discr = {v["name"]: int(v["discr"]) for v in adt["variants"]}
     st = switch_table(an, fb, lambda e: e == ("arg", 1))
-    if st is None:
-        ctx.ob(rule, from_path, "switch-table", False, "From<u16> is not a single switch on its argument")
-        return 0
+    simple = st is not None and st[2] is not None and all(a is not None for a in st[1].values())
+    if not simple:
+        return lookup_table_by_evaluation(ctx, an, rule, fb, from_path, discr, catch)
     blk, table, oth, _ = st
     n = 0
     for v, arm in sorted(table.items()):
@@ -238,6 +238,52 @@ def lookup_table_rule(ctx, an, prog, rule, enum_path, from_path, catch):
         ok = arm is not None and arm[0] == "variant" and arm[2] == nm
         if not ok:
             ctx.ob(rule, from_path, "variant-reachable:%s" % nm, False, "variant %s (=%d) is never produced for its own number" % (nm, d))
+    return n
+
+
+def lookup_table_by_evaluation(ctx, an, rule, fb, from_path, discr, catch):
+    """The match is not one plain switch (ranges, or-patterns, guards on constants compile to comparisons): evaluate
+    the function path-sensitively at every value where its behaviour can change - the constants it compares with
+    (and their neighbours), every declared discriminant, 0 and the maximum - which is exact for a function whose
+    branches only compare the argument with constants.  Same obligations (and keys) as the switch-table form."""
+    pts = set([0, 65535]) | set(discr.values())
+    for blk in sorted(fb.live_blocks()):
+        t = fb.term(blk)
+        if t["k"] == "switch":
+            pts |= set(int(v) for v, _ in t["targets"] if isinstance(v, int))
+        for st in fb.blocks[blk]["stmts"]:
+            if st["k"] == "assign" and st["rv"]["k"] == "binop":
+                for o in (st["rv"]["a"], st["rv"]["b"]):
+                    if o.get("k") == "const" and isinstance(o.get("val"), int):
+                        pts.add(o["val"])
+    pts = sorted(set(x for p in pts for x in (p - 1, p, p + 1) if 0 <= x <= 65535))
+    byd = {d: nm for nm, d in discr.items()}
+    n = 0
+    listed = set()
+    unlisted_bad = []
+    for v in pts:
+        r = result_for_value(an, fb, v)
+        nm = r[2] if r and r[0] == "variant" else None
+        if v in byd and byd[v] not in catch:
+            n += 1
+            ok = nm is not None and (nm == byd[v] or nm in catch)
+            if nm == byd[v]:
+                listed.add(nm)
+            if nm is not None and nm not in catch:
+                ctx.ob(rule, from_path, "arm:%d" % v, discr.get(nm) == v, "%d -> %s (declared discriminant %s)" % (v, nm, discr.get(nm)))
+            elif nm is None:
+                ctx.ob(rule, from_path, "arm:%d" % v, False, "%d -> result not determined by comparisons with constants (unrecognised shape)" % v)
+        else:
+            if nm is None or (nm not in catch and discr.get(nm) != v):
+                unlisted_bad.append((v, nm))
+            elif nm not in catch:
+                n += 1
+                ctx.ob(rule, from_path, "arm:%d" % v, discr.get(nm) == v, "%d -> %s (declared discriminant %s)" % (v, nm, discr.get(nm)))
+    ctx.ob(rule, from_path, "otherwise", not unlisted_bad, "unlisted numbers -> %s" % (("a catch-all %s at every probed value" % sorted(catch)) if not unlisted_bad else unlisted_bad[:5]))
+    for nm, d in sorted(discr.items(), key=lambda x: x[1]):
+        if nm in catch or nm in listed:
+            continue
+        ctx.ob(rule, from_path, "variant-reachable:%s" % nm, False, "variant %s (=%d) is never produced for its own number" % (nm, d))
     return n
 
 
